@@ -41,7 +41,7 @@ class C07(Prop):
     k2_invs2 = {'blk2'}         # the stage-2 T2 invariants (Inv/AllRun2.invs2_b) this property answers for on real snapshots
     k2_invs = {'blk', 'who', 'cap'}          # the T2 invariants (Inv/AllRun.invs_b) this property answers for on real snapshots
     num = 7
-    regions = {'quick': [('block', 260), ('core', 60), ('routers', 50), ('renege', 50), ('sched_block', 80), ('deadlock', 40)]}
+    regions = {'quick': [('block', 260), ('core', 60), ('routers', 50), ('renege', 50), ('sched_block', 80), ('deadlock', 40), ('fanout_block', 60)]}
     rule = ('one case = one observed run of a restricted network (finite capacities, non-pre-emptive); non-trivial = at some '
             'instant two customers were blocked towards the same node and an unblocking cascade of depth >= 2 happened; '
             'distinct = distinct configuration hashes')
